@@ -49,13 +49,22 @@ import (
 // approved here).
 func init() {
 	register(&Rule{
-		Name:  "MERGE-ORDERED",
-		IR:    "ast",
-		Props: []string{"C03"},
-		Floor: 10, // 8 FindFeatures implementations + 2 mergers
+		Name:    "MERGE-ORDERED",
+		IR:      "ast",
+		Props:   []string{"C03", "C16"},
+		FloorBy: map[string]int{"C03": 10, "C16": 3},
+		Floor:   10, // 8 FindFeatures implementations + 2 mergers
 		Doc: "every FindFeatures method of a b6.World implementation that combines more than one b6.Features source returns (through wrappers) " +
 			"a call of b6.MergeFeatures or ingest.newOverlayFeatures fed by all its sources; both mergers order by FeatureID.Less",
-		Run: runMergeOrdered,
+		Run: func(c *Ctx) []Obligation {
+			out := runMergeOrdered(c)
+			for i := range out {
+				if out[i].Props == nil {
+					out[i].Props = []string{"C03"}
+				}
+			}
+			return out
+		},
 	})
 }
 
@@ -433,6 +442,10 @@ func (m *gMergeCtx) checkFindFeatures(fd *ast.FuncDecl, info *types.Info, name s
 		}
 		srcs = append(srcs, t)
 	}
+	if len(sources) >= 2 {
+		// a world that layers one source of features over another: shadowing in searches (C16)
+		ob.Props = []string{"C03", "C16"}
+	}
 	switch {
 	case len(fl.problems) > 0:
 		ob.Status = Violation
@@ -591,7 +604,8 @@ func (m *gMergeCtx) checkMerger(f *types.Func) Obligation {
 		}
 		return ob
 	}
-	// two-way merger
+	// two-way merger: the iterator that lets an upper layer shadow its base in searches (C16)
+	ob.Props = []string{"C03", "C16"}
 	if !nextHasLess {
 		ob.Status = Violation
 		ob.Detail = fmt.Sprintf("merger %s: %s.Next never compares its sides with FeatureID.Less", f.Name(), iter.Obj().Name())
